@@ -156,6 +156,9 @@ def check_proofs(pid, tier):
         res["error"] = "forbidden tokens: " + "; ".join(bad[:5])
         return res
     pv = os.path.join(COQ, "theories", pid, "Properties.v")
+    if not os.path.exists(pv):
+        res["error"] = "theories/%s/Properties.v does not exist" % pid
+        return res
     src = strip_comments(open(pv).read())
     thms = re.findall(r"^\s*Theorem\s+(\w+)", src, re.M)
     res["obligations"] = len(thms)
@@ -450,11 +453,13 @@ def run_check(mod, tier, seed, replay=None):
         status = 1
         violations = max(1, len(failures))
         os.makedirs(os.path.join(VERIF, "replays"), exist_ok=True)
-        rfile = os.path.join(VERIF, "replays", "%s-%d-%s.json" % (pid, seed, tier))
+        rfile = os.environ.get("VERIF_REPLAY_OUT") or os.path.join(VERIF, "replays", "%s-%d-%s.json" % (pid, seed, tier))
         rep = {"property": pid, "seed": seed, "tier": tier, "broken": broken}
         if failures:
             # prefer the smallest failing case
-            i, v = min(failures, key=lambda iv: len(lines[iv[0]]))
+            pref = os.environ.get("VERIF_PREFER_SIG")
+            pool = [f for f in failures if pref and pref in f[1][0]] or failures
+            i, v = min(pool, key=lambda iv: len(lines[iv[0]]))
             c = cases[i]
             if hasattr(mod, "shrink"):
                 c = shrink_case(mod, c, v[0])
